@@ -27,12 +27,15 @@ ASSUMPTIONS = [
 ]
 COMPONENTS = {"real": ["pyxel calibration (Calibration, ModelFittingDataTree, ArchipelagoDataTree, DaskBFE, DaskIsland)", "pygmo algorithms and island threads", "dask get_async"], "stub": ["thread pool / ThreadPoolExecutor (SimExecutor)", "archipelago.wait_check baton release (proxy)"]}
 BUDGET = {"quick": {"n": 64, "wall": 110, "determinism": 2}, "thorough": {"n": 1600, "wall": 1700, "determinism": 6}}
-REQUIRED_REACH = ["log_param", "vector_param", "per_component_bounds", "shared_bounds", "islands>1", "best_individuals", "contested_runs", "direct_fitness_calls", "vector_before_scalar"]
+REQUIRED_REACH = ["algo:nlopt", "algo:sade", "algo:sga", "fitness_calls_checked", "rerun_of_same_objects", "log_param", "vector_param", "per_component_bounds", "shared_bounds", "islands>1", "best_individuals", "contested_runs", "direct_fitness_calls", "vector_before_scalar"]
 
 
 def generate(rng, tier):
     scn = calib.gen_calibration(rng, tier, fit_ranges="full", multi_readout_p=0.0, weights_p=0.0, n_targets=(1, 1, 2))
     scn["direct_x_seed"] = rng.randrange(2**31)
+    scn["rerun"] = rng.random() < 0.35
+    if scn["sched"]["policy"] == "preempt":
+        scn["sched"]["preempt_p"] = rng.choice([0.05, 0.2, 0.5])
     return scn
 
 
@@ -118,6 +121,26 @@ def check_mapping(scn, rec, viol, stats):
                 return
 
 
+def check_fitness_calls(scn, rec, viol, stats, tag=""):
+    """Under any interleaving of concurrently evaluated candidates, the values the pipeline received during one
+    fitness(x) call are the parameters of x (and of no other candidate)."""
+    feat = features(scn)
+    for call in rec.get("fitlog") or []:
+        if call["exc"] is not None:
+            continue
+        want = calib.decision_to_parameters(scn["mode"]["parameters"], call["x"])
+        evs = [e for e in calib.evaluations(scn, call["events"]) if "level" in e]
+        stats["fitness_calls_checked"] = stats.get("fitness_calls_checked", 0) + 1
+        if len(evs) != scn["mode"]["n_targets"]:
+            viol.append({"clause": "C10.mapping", "signature": f"C10.evaluations-per-fitness-call{tag}", "detail": {"got": len(evs), "expected_pairs": scn["mode"]["n_targets"], "thread": call["thread"]}})
+            return
+        for e in evs:
+            got = calib.applied_vector(scn, e)
+            if not close(got, want, 1e-15):
+                viol.append({"clause": "C10.mapping", "signature": f"C10.applied-is-not-the-candidate@{feat}{tag}", "detail": {"decision": call["x"], "applied": got, "expected": want, "thread": call["thread"]}})
+                return
+
+
 def direct_calls(scn, viol, stats, check_fitness=False):
     """problem.fitness(x) for simulator-drawn x: applied values must be ref.map(x)."""
     from pyxel.calibration import FitRange3D, to_fit_range
@@ -197,7 +220,7 @@ def stats_for(scn, rec, stats):
 
 def execute(scn, forced=None):
     viol, stats = [], {}
-    rec = calib.run_calibration(scn, forced=forced)
+    rec = calib.run_calibration(scn, forced=forced, rerun=bool(scn.get("rerun")))
     stats_for(scn, rec, stats)
     sim = rec.get("sim") or {}
     if rec["exc"] is not None:
@@ -209,6 +232,21 @@ def execute(scn, forced=None):
     else:
         check_mapping(scn, rec, viol, stats)
         if not viol:
+            check_fitness_calls(scn, rec, viol, stats)
+        r2 = rec.get("rerun")
+        if r2 is not None and not viol:
+            stats["rerun_of_same_objects"] = 1
+            if r2["exc"] is not None:
+                viol.append({"clause": "C10.runs", "signature": f"C10.rerun-raises:{type(r2['exc']).__name__}@{features(scn)}", "detail": {"exc": repr(r2["exc"])[:400], "tb": r2.get("tb", "")[-800:]}})
+            else:
+                n0 = len(viol)
+                check_mapping(scn, r2, viol, stats)
+                if len(viol) == n0:
+                    check_fitness_calls(scn, r2, viol, stats, tag="+second-run")
+                for v in viol[n0:]:
+                    if not v["signature"].endswith("+second-run"):
+                        v["signature"] += "+second-run"
+        if not viol:
             direct_calls(scn, viol, stats)
     ncomp = len(calib.flat_bounds(scn["mode"]["parameters"]))
     key = hashlib.sha256(engine.jdump([[(p["values"], p.get("logarithmic"), np.array(p["boundaries"]).ndim) for p in scn["mode"]["parameters"]], scn["mode"]["algorithm"], scn["mode"]["num_islands"], scn["mode"]["num_evolutions"], scn["sched"]["policy"], scn["sched"]["workers"]]).encode()).hexdigest()[:16]
@@ -217,7 +255,7 @@ def execute(scn, forced=None):
         "stats": stats,
         "nontrivial": ncomp >= 2 and bool(sim.get("contested")),
         "key": key,
-        "digest": (sim.get("digest") or "") + ":" + obs.hist_digest(rec["hist"]) + ":" + calib.result_digest(rec["tree"]) if rec["tree"] is not None else "exc",
+        "digest": ((sim.get("digest") or "") + ":" + obs.hist_digest(rec["hist"]) + ":" + calib.result_digest(rec["tree"]) + (":" + obs.hist_digest(rec["rerun"]["hist"]) if rec.get("rerun") else "")) if rec["tree"] is not None else "exc",
         "sim_time": float(sim.get("now") or 0.0),
         "decisions": sim.get("decisions") or [],
         "sample": {"parameters": scn["mode"]["parameters"], "algorithm": scn["mode"]["algorithm"], "islands": scn["mode"]["num_islands"], "evolutions": scn["mode"]["num_evolutions"], "sched": scn["sched"], "evaluations": len(calib.evaluations(scn, rec["hist"]))},
